@@ -19,7 +19,7 @@ PROPERTY = 'C04'
 LEVEL = 'model_checking'
 ASSUMPTIONS = [
     'floats modelled as exact reals; NaN outside the claim',
-    'constraints deterministic and idempotent, penalty >= 0 (as in C01)',
+    'constraints deterministic and idempotent, penalty an arbitrary real-valued function (as in C01)',
     'monitors: the plain in-memory Monitor, initially empty, default in-process map (verbose/logging monitors print or write text: outside the claim)',
     'DE: one focus candidate per instance has solver-chosen random draws; Powell: Brent replaced by its contract (which evaluates func(0) and func(alpha): both are counted calls)',
     'API-call programs: enumerated sequences (bounded length) of Step/Set*/Finalize/Solve(maxiter) on NM, Powell and DE; numeric state symbolic',
@@ -90,7 +90,7 @@ def oblig(r):
 
 
 # ----------------------------------------------------------------------------- API-call programs
-OPS = ('Step', 'SetPenalty', 'SetConstraints', 'SetStrictRanges', 'SetLimitsNew', 'Finalize', 'SetEvalMon', 'Solve1')
+OPS = ('Step', 'SetPenalty', 'SetConstraints', 'SetStrictRanges', 'SetLimitsNew', 'Finalize', 'SetEvalMon', 'Solve1', 'SetGenMon', 'Solve0')
 
 
 def program(kind, prog, dim=1, nomon=False):
@@ -152,6 +152,22 @@ def program(kind, prog, dim=1, nomon=False):
                     s.SetEvaluationLimits(generations=1, new=True)
                     s.Solve(callback=w.callback)
                     s.SetEvaluationLimits(L.BIG, L.BIG)
+                elif op == 'Solve0':
+                    s.SetEvaluationLimits(generations=0, new=True)
+                    s.Solve(callback=w.callback)
+                    s.SetEvaluationLimits(L.BIG, L.BIG)
+                elif op == 'SetGenMon':
+                    s.SetGenerationMonitor(Monitor())      # documented: existing data is prepended
+                if op in ('Finalize', 'Solve1', 'Solve0') and (len(w.calls) > 0):
+                    # a stopped / finalized run: one record per generation, ending in the reported result
+                    sm = s._stepmon
+                    obs.append(('step-monitor-has-generations+1-records@%d:%s' % (j, op), const(len(sm) == s.generations + 1)))
+                    if len(sm):
+                        be = L.scalar(s.bestEnergy)
+                        obs.append(('step-monitor-ends-in-reported-result@%d:%s' % (j, op),
+                                    And(veq(L.vec(sm._x[-1]), L.vec(s.bestSolution)), eq(L.scalar(sm._y[-1]), be) if not isinf(be) else const(isinf(L.scalar(sm._y[-1]))))))
+                    eh = [L.scalar(e) for e in s.energy_history]
+                    obs.append(('energy-history-ends-in-best@%d:%s' % (j, op), const(len(eh) > 0) if not len(eh) else (eq(eh[-1], L.scalar(s.bestEnergy)) if not isinf(eh[-1]) else const(isinf(L.scalar(s.bestEnergy))))))
                 obs.append(('evaluations==total-cost-calls@%d:%s' % (j, op), eq(s.evaluations, len(w.calls))))
                 if mons:
                     cur = mons[-1]
@@ -219,6 +235,12 @@ def programs(tier):
             out.append((kind, ('nomon', 'Step', 'SetEvalMon', 'Step', 'Finalize', 'Step')))
             out.append((kind, ('nomon', 'Step', 'Finalize', 'Step')))
         out.append(('NM', ('nomon', 'Step', 'Step', 'SetEvalMon', 'Step', 'SetPenalty', 'Step')))
+        for kind in ('NM', 'Powell', 'DE'):
+            out.append((kind, ('Solve0',)))
+            out.append((kind, ('Solve0', 'Solve1')))
+            out.append((kind, ('Step', 'Step', 'SetGenMon', 'Finalize')))
+        out.append(('Powell', ('Step', 'Step', 'Step', 'SetGenMon', 'Finalize')))
+        out.append(('Powell', ('Step', 'Step', 'Finalize', 'Step', 'Finalize')))
     else:
         for kind in ('NM', 'Powell', 'DE', 'DE2'):
             L_ = 4 if kind == 'NM' else 3
